@@ -79,7 +79,8 @@ class Explorer:
     """
 
     def __init__(self, inputs, domain, body, tr, max_regions=400, timeout=20.0, closure_timeout=30.0,
-                 label='', check_defined=True, solvers=('z3', 'cvc5', 'z3new'), deadline=None):
+                 label='', check_defined=True, solvers=('z3', 'cvc5', 'z3new'), deadline=None, require_closure=True):
+        self.require_closure = require_closure
         self.inputs = dict(inputs)
         self.domain = domain
         self.body = body
@@ -181,12 +182,17 @@ class Explorer:
                                                'n_path_conditions': len(pcs),
                                                'goals': [g.label for g in goals][:12]})
                 prefix = f'r{k}_'
-                vs, ufs, defs = smt.render_defs(d, pcs, prefix)
+                from .axioms import ground_axioms as _ga
+
+                # true facts about the uninterpreted functions occurring in the path conditions (exp > 0, ...):
+                # without them the solver could leave a region through a non-standard exp/log
+                pc_ax = _ga(d, pcs) if (pcs and d.ufs(pcs)) else []
+                vs, ufs, defs = smt.render_defs(d, pcs + pc_ax, prefix)
                 if pcs:
                     rassert = '(not (and ' + ' '.join(f'{prefix}n{c}' for c in pcs) + '))'
                 else:
                     rassert = 'false'
-                region_parts.append((vs, ufs, defs, rassert))
+                region_parts.append((vs, ufs, defs, rassert, [f'{prefix}n{a}' for a in pc_ax]))
                 k += 1
                 out.regions = k
                 tr.regions += 1
@@ -197,11 +203,13 @@ class Explorer:
                 body_lines = list(defs0)
                 for c in dom:
                     body_lines.append(f'(assert n{c})')
-                for (vs_, ufs_, defs_, ra) in region_parts:
+                for (vs_, ufs_, defs_, ra, axs_) in region_parts:
                     allvars |= set(vs_)
                     allufs.update(ufs_)
                     body_lines.extend(defs_)
                     body_lines.append(f'(assert {ra})')
+                    for a_ in axs_:
+                        body_lines.append(f'(assert {a_})')
                 text = smt.assemble(allvars, allufs, body_lines, [f'n{v}' for v in varids])
                 tr.evaluations += 1
                 r = smt.solve_text(text, get_values=varids, timeout=self.closure_timeout, solvers=self.solvers,
@@ -211,7 +219,11 @@ class Explorer:
                     tr.closures += 1
                     return out
                 if r.status != 'sat':
-                    tr.inconc(f'{self.label}: closure query unknown after {k} regions')
+                    if self.require_closure:
+                        tr.inconc(f'{self.label}: closure query unknown after {k} regions')
+                    else:
+                        tr.notes.append(f'{self.label}: no coverage certificate (closure query undecided after {k} regions); '
+                                        f'the claim is restricted to the explored regions')
                     return out
                 new = {}
                 for c in pcs:
